@@ -1,10 +1,42 @@
 //! Stub `crossbeam::channel`: unbounded MPMC FIFO, single-threaded semantics (assumed contract:
 //! `send` appends, `try_recv` pops the oldest, clones share the queue).
+//! Under Kani the queue is a fixed-capacity ring (no heap growth: CBMC cost); overflow panics = a harness bound.
 pub mod channel {
     use std::cell::UnsafeCell;
-    use std::collections::VecDeque;
     use std::sync::Arc;
-    struct Q<T>(UnsafeCell<VecDeque<T>>);
+    #[cfg(not(kani))]
+    mod q {
+        use std::collections::VecDeque;
+        pub struct Fifo<T>(VecDeque<T>);
+        impl<T> Fifo<T> {
+            pub fn new() -> Self { Fifo(VecDeque::new()) }
+            pub fn push(&mut self, t: T) { self.0.push_back(t) }
+            pub fn pop(&mut self) -> Option<T> { self.0.pop_front() }
+        }
+    }
+    #[cfg(kani)]
+    mod q {
+        pub const CAP: usize = 4;
+        pub struct Fifo<T> { buf: [Option<T>; CAP], head: usize, len: usize }
+        impl<T> Fifo<T> {
+            pub fn new() -> Self { Fifo { buf: [None, None, None, None], head: 0, len: 0 } }
+            pub fn push(&mut self, t: T) {
+                if self.len >= CAP { panic!("stub channel capacity exceeded"); }
+                let at = (self.head + self.len) % CAP;
+                self.buf[at] = Some(t);
+                self.len += 1;
+            }
+            pub fn pop(&mut self) -> Option<T> {
+                if self.len == 0 { return None; }
+                let t = self.buf[self.head].take();
+                self.head = (self.head + 1) % CAP;
+                self.len -= 1;
+                t
+            }
+        }
+    }
+    use q::Fifo;
+    struct Q<T>(UnsafeCell<Fifo<T>>);
     unsafe impl<T: Send> Send for Q<T> {}
     unsafe impl<T: Send> Sync for Q<T> {}
     pub struct Sender<T>(Arc<Q<T>>);
@@ -13,7 +45,7 @@ pub mod channel {
     #[derive(Debug)] pub struct TryRecvError;
     impl<T> Clone for Sender<T> { fn clone(&self) -> Self { Sender(self.0.clone()) } }
     impl<T> Clone for Receiver<T> { fn clone(&self) -> Self { Receiver(self.0.clone()) } }
-    impl<T> Sender<T> { pub fn send(&self, t: T) -> Result<(), SendError<T>> { unsafe { (*self.0 .0.get()).push_back(t); } Ok(()) } }
-    impl<T> Receiver<T> { pub fn try_recv(&self) -> Result<T, TryRecvError> { unsafe { (*self.0 .0.get()).pop_front() }.ok_or(TryRecvError) } }
-    pub fn unbounded<T>() -> (Sender<T>, Receiver<T>) { let q = Arc::new(Q(UnsafeCell::new(VecDeque::new()))); (Sender(q.clone()), Receiver(q)) }
+    impl<T> Sender<T> { pub fn send(&self, t: T) -> Result<(), SendError<T>> { unsafe { (*self.0 .0.get()).push(t); } Ok(()) } }
+    impl<T> Receiver<T> { pub fn try_recv(&self) -> Result<T, TryRecvError> { unsafe { (*self.0 .0.get()).pop() }.ok_or(TryRecvError) } }
+    pub fn unbounded<T>() -> (Sender<T>, Receiver<T>) { let q = Arc::new(Q(UnsafeCell::new(Fifo::new()))); (Sender(q.clone()), Receiver(q)) }
 }
